@@ -8,6 +8,7 @@ from .. import paths
 from ..core import FUNC, AnalysisError, inert, call_attr, calls_in, const, dotted, is_const, kwarg, norm, slice_parts, text, walk_local
 
 EXPLANATION = [
+    'C20.empty-write: DLC.write reaches self.drained.clear() only on paths where the data is non-empty.',
     'C20.pending-under-lock: HfProtocol.execute_command assigns a (non-None) pending_command only inside `async with self.command_lock`.',
     'C20.open-guard-first: Multiplexer.open_dlc tests self.state (raising for a second open) before any assignment to self.open_*.',
     'C20.queued-frames-hold-credits: RFCOMM DLC: rx_credits_needed counts the frames queued for a missing sink as occupied window, the queue is at least as large as the window, and the sink setter empties the queue and calls process_tx().',
@@ -1426,7 +1427,26 @@ def pending_under_lock(ctx):
         R.check(inside, rule, f'{HF}.execute_command | {norm(s_)[:40]}', 'inside `async with self.command_lock`', 'pending_command is set before the lock is held: a command queued behind the running one replaces it, the running command\'s responses are filed as unsolicited and it fails with NO ANSWER - the service level connection does not complete when the application issues a command meanwhile', p.loc(s_))
 
 
+def empty_write(ctx):
+    """DLC.write clears `drained` only when it has queued something: process_tx() sets the event again when the transmit
+    buffer has been emptied by a send - with nothing queued nothing is sent, and a drain() after an empty write would wait
+    for ever."""
+    R, p = ctx.r, ctx.p
+    rule = 'C20.empty-write'
+    fn = p.find('bumble.rfcomm.DLC.write')
+    if fn is None:
+        R.bad(rule, 'bumble.rfcomm.DLC.write', 'anchor missing')
+        return
+    clears = [c for c in calls_in(fn) if dotted(c.func) == 'self.drained.clear']
+    R.check(len(clears) == 1, rule, 'bumble.rfcomm.DLC.write | drained.clear()', 'one site', f'{len(clears)} sites', p.loc(fn))
+    for c in clears:
+        g = [(norm(t), pol) for t, pol in paths.flat_guards(c, stop=fn)]
+        ok = ('data', True) in g or ('not data', False) in g or ('len(data) > 0', True) in g or ('len(data) == 0', False) in g
+        R.check(ok, rule, 'bumble.rfcomm.DLC.write | only with data', 'reached only when there is data to send', f'`drained` is cleared whatever is written (guards {g}): after write(b"") nothing is sent and nothing sets the event again - drain() never returns', p.loc(c))
+
+
 RULES = [
+    ('C20.empty-write', empty_write),
     ('C20.pending-under-lock', pending_under_lock),
     ('C20.open-guard-first', open_guard_first),
     ('C20.queued-frames-hold-credits', queued_frames_hold_credits),
